@@ -111,7 +111,7 @@ func cmdCheck(args []string) int {
 	}
 	scratch, _ := os.MkdirTemp("", "govc-"+prop+"-")
 	defer os.RemoveAll(scratch)
-	timeout := 25 // quick: no obligation of the unchanged tree needs more than a third of this on an idle machine (see coverage.slowest)
+	timeout := 40 // quick: no obligation of the unchanged tree needs more than a third of this on an idle machine (see coverage.slowest)
 	if *tier == "thorough" {
 		timeout = 120
 	}
